@@ -52,6 +52,49 @@ def run(tier, rep):
             if real != post:
                 rep.violation(dict(kind="hoist", clause="real hoist result differs from the transcription (injected TLC order)", spec=sp["yaml"], text="",
                                    family=sp["family"], graph=recs[k], pre=pre, spec_post=post, real_post=real))
+        # real dependences, independently of the graph's own edges: under admissible orders of the flow graphs (random linear extensions
+        # injected through the hook) no emitted statement may read a name that the program binds only later (Scope.tla on the whole text)
+        import os
+        import re
+        import execpipe
+        import scopepipe
+        import common
+        os.environ[common.GUARD] = "1"
+        progs = []
+        specs = []
+        seen = set()
+        for sp, hw in src:
+            if id(sp) not in seen:
+                seen.add(id(sp))
+                specs.append((sp, hw))
+        for sp, hw in specs[:: (2 if q else 1)]:
+            for k in range(3 if q else 8):
+                os.environ["TEAAL_VERIF_TOPO_SEED"] = str(100 + k)
+                try:
+                    text = execpipe.compile_text(sp["yaml"], hw=hw)
+                except Exception:
+                    continue
+                finally:
+                    os.environ.pop("TEAAL_VERIF_TOPO_SEED", None)
+                progs.append({"id": len(progs), "yaml": sp["yaml"], "text": text, "family": sp["family"], "mode": "metrics" if hw else "plain"})
+        os.environ.pop(common.GUARD, None)
+        distinct = {}
+        for p in progs:
+            distinct.setdefault(p["text"], p)
+        progs = list(distinct.values())
+        sub = common.Report("C10", tier)
+        found = scopepipe.run_scope(progs, sub, wd, what="orders-closed")
+        rep.cov["tlc_runs"] += sub.cov["tlc_runs"]
+        rep.cov["states"] += sub.cov["states"]
+        rep.cov["transitions"] += sub.cov["transitions"]
+        n_texts = len(progs)
+        for p, fs in zip(progs, found):
+            for kind, name in sorted(fs):
+                # only ordering problems: the name IS bound somewhere in the program (names bound nowhere are C06's business)
+                if kind == "unbound" and re.search(r"(^|\n)\s*%s\s*=[^=]|for [^\n]*\b%s\b[^\n]* in " % (re.escape(name), re.escape(name)), p["text"]):
+                    rep.violation(dict(kind="scope", clause="Err: unbound name %s under an admissible statement order (a real dependence is not an edge of the flow graph)" % name,
+                                       spec=p["yaml"], text=p["text"], family=p["family"], mode=p["mode"]))
+    rep.cov["texts_under_injected_orders"] = n_texts
     rep.cov["programs"] = len({id(s[0]) for s in src})
     rep.cov["evaluations"] = len(recs) + n_inj
     rep.cov["traces_validated_against_impl"] = len(recs) + n_inj
